@@ -31,6 +31,8 @@ StageOut(st, s) ==
     [] st.t = "prepend"   -> st.lit \o s
     [] st.t = "scan"      -> SScan(s, 0)
     [] st.t = "zipidx"    -> SZipIdx(s)
+    [] st.t = "zip"       -> SZip(s, st.lit)
+    [] st.t = "zip3"      -> SZip3(s, st.lit, st.n)
     [] st.t = "sort"      -> SSort(s)
     [] st.t = "reverse"   -> SReverse(s)
     [] st.t = "distinct"  -> SDistinct(s, {})
@@ -56,6 +58,8 @@ Known(pp, s, closed) ==
        CASE st.t = "take" -> Known(Tail(pp), STake(s, st.n), closed \/ Len(s) >= st.n)
          [] st.t \in {"tw", "spanl"} -> Known(Tail(pp), STakeWhile(s, st.p), closed \/ Failing(s, st.p))
          [] st.t = "concat" -> Known(Tail(pp), IF closed THEN s \o st.lit ELSE s, closed)
+         \* (a zip is symmetric in its operands: that the literal operand has ended does not close the output as far as the
+         \*  source is concerned - Zip may ask the source first - so no closedness is claimed for zip / zip3: lenient reading)
          [] OTHER -> Known(Tail(pp), StageOut(st, s), closed)
 
 Prefix(s, m) == SubSeq(s, 1, m)
